@@ -47,13 +47,18 @@ func (m *c8Model) use(p string) bool {
 }
 
 var c8Pkgs = []string{"p", "q", "user"}
-var c8Names = []string{"a", "b"}
+// "first" is also an export of the language package: every package starts with it bound to the
+// builtin, and a package's own binding of the name is its own from then on
+var c8Names = []string{"a", "b", "first"}
 
 func VerifC08_KPkg() {
 	env := newEnv(nil)
 	r := evalSrc(env, "(in-package 'p) (in-package 'q) (in-package 'user)")
 	vAssert(r.Type != lisp.LError, "packages created")
 	m := &c8Model{cur: "user", bind: map[string]map[string]*lisp.LVal{}, exports: map[string][]string{}}
+	for _, p := range c8Pkgs {
+		m.pkg(p)["first"] = lisp.Symbol("#fun-language-export") // imported when the package was created
+	}
 	nops := vParam("ops", 3)
 	for i := 0; i < nops; i++ {
 		op := vndChoice("op", 7)
@@ -65,7 +70,7 @@ func VerifC08_KPkg() {
 			src = "(in-package '" + p + ")"
 			m.cur = p
 		case 1:
-			n := c8Names[vndChoice("name", 2)]
+			n := c8Names[vndChoice("name", len(c8Names))]
 			src = "(export '" + n + ")"
 			m.export(n)
 		case 2:
@@ -73,20 +78,20 @@ func VerifC08_KPkg() {
 			src = "(use-package '" + p + ")"
 			okWant = m.use(p)
 		case 3:
-			n := c8Names[vndChoice("name", 2)]
+			n := c8Names[vndChoice("name", len(c8Names))]
 			v := lisp.Int(vndInt("v"))
 			env.PutGlobal(lisp.Symbol("user:tmp"), v)
 			src = "(set '" + n + " user:tmp)"
 			m.pkg(m.cur)[n] = v
 		case 4:
 			p := c8Pkgs[vndChoice("pkg", 2)]
-			n := c8Names[vndChoice("name", 2)]
+			n := c8Names[vndChoice("name", len(c8Names))]
 			v := lisp.Int(vndInt("v"))
 			env.PutGlobal(lisp.Symbol("user:tmp"), v)
 			src = "(set '" + p + ":" + n + " user:tmp)"
 			m.pkg(p)[n] = v
 		case 5:
-			n := c8Names[vndChoice("name", 2)]
+			n := c8Names[vndChoice("name", len(c8Names))]
 			src = "(defun " + n + " () 'fun-" + n + "-" + m.cur + ")"
 			m.pkg(m.cur)[n] = lisp.Symbol("#fun-" + n + "-" + m.cur)
 		case 6:
@@ -107,6 +112,10 @@ func VerifC08_KPkg() {
 	check := func(ref string, want *lisp.LVal, bound bool) {
 		got := evalSrc(env, ref)
 		if !bound {
+			if len(ref) >= 5 && ref[len(ref)-5:] == "first" {
+				vAssert(got.Type == lisp.LFun, ref+" is still the language's own function")
+				return
+			}
 			vAssert(got.Type == lisp.LError, ref+" is unbound")
 			return
 		}
